@@ -90,6 +90,9 @@ class Contract:
     lift_pred: dict = field(default_factory=dict)     # requires-predicate name -> {'list': lifted, 'ents': lifted}
     lift_raises: dict = field(default_factory=dict)   # exception kind -> {'list': definedness predicate over PL, 'ents': ... over PE}
     annot: dict = field(default_factory=dict)         # per-function meaning of annotation names (e.g. {'Task': 'Inst', 'int': 'Inst'})
+    fault_sites: bool = False                 # C12: name exceptional-exit obligations by the fault site (trusted primitive + exception) that was taken
+    crash_cond: list = field(default_factory=list)    # C13: clauses that must hold at every crash point (statement boundaries and fault post-states)
+    opaque_tests: dict = field(default_factory=dict)  # source text of a boolean expression -> spec expression that stands for it
     reveal: tuple = ()                        # recursive spec functions whose definitions this function's proof may unfold
     assume_unreachable: tuple = ()            # source texts of `if` tests assumed False (each listed as an assumption)
     cand_locals: tuple = ()                   # locals that candidates may mention besides __done__/__ret__
@@ -126,6 +129,9 @@ class Registry:
         self.identity_sorts: tuple = ('Inst',)
         self.file_sorts: tuple = ()
         self.global_objects: dict = {}            # module-level singleton objects: name -> class name
+        self.json_records: dict = {}              # sort -> {json key: type}: dict literals / loaded documents with constant string keys
+        self.with_exit: dict = {}                 # handle sort -> (contract key on normal body exit, contract key on exceptional body exit)
+        self.datatypes_late: list = []            # groups that refer to other datatypes (declared after them)
         self.datatypes: list = []                 # [(name, [(ctor, [(field, type)])])] mutually recursive group(s)
         self.recfuncs: dict = {}                  # name -> dict(params={n: type}, res=type, body=expr)
         self.const_exprs: dict = {}               # dotted module constants (os.path.sep) -> spec expression
@@ -138,6 +144,21 @@ class Registry:
 
     def func(self, name, args, res):
         self.funcs[name] = (list(args), res)
+
+    def json_record(self, sort, fields):
+        """A JSON object with a fixed vocabulary of string keys, as a datatype: per key a presence flag and a value
+        (plus a null flag for optional values), so structural equality of documents is datatype equality."""
+        self.json_records[sort] = dict(fields)
+        flds = []
+        for k, t in fields.items():
+            kk = k.replace('-', '_')
+            flds.append((f'{sort}_has_{kk}', 'Bool'))
+            if t.startswith('Opt['):
+                flds.append((f'{sort}_null_{kk}', 'Bool'))
+                flds.append((f'{sort}_val_{kk}', t[4:-1]))
+            else:
+                flds.append((f'{sort}_val_{kk}', t))
+        self.datatypes_late.append([(sort, [(f'Mk{sort}', flds)])])
 
     def datatype_group(self, group):
         self.datatypes.append(group)
@@ -192,7 +213,7 @@ class Registry:
         return self.records[sort]
 
     def contract(self, key, **kw):
-        for k in ('requires', 'ensures', 'candidates', 'yields', 'rely_ensures', 'interrupt_exit'):
+        for k in ('requires', 'ensures', 'candidates', 'yields', 'rely_ensures', 'interrupt_exit', 'crash_cond'):
             kw[k] = _clauses(kw.get(k))
         kw['raises'] = {k: _clauses(v) for k, v in (kw.get('raises') or {}).items()}
         if isinstance(kw.get('serves'), str):
